@@ -3,6 +3,7 @@
 -/
 import PG.Model.Meta
 import PG.Lemmas.ListBasics
+import PG.Lemmas.MetaL
 namespace PG
 
 /-- value of the last header with key `k` in the stream (`none` = no such header;
@@ -12,18 +13,26 @@ def lastHeader (k : Bytes) (items : List Item) : Option (Option Bytes) :=
     | .ok (.header key v) => if key == k then some v else none
     | _ => none)).getLast?
 
+theorem lastHeader_eq_lastHdr (k : Bytes) (items : List Item) :
+    lastHeader k items = lastHdr k items := by
+  unfold lastHeader lastHdr
+  congr 2
+
 /-- 'has line info' is true exactly when some method record anywhere in the stream carries a
     line mapping -/
 theorem C19_line_info (bs : Bytes) :
     hasLineInfo bs = true ↔
       ∃ ty o b a c lm, Item.ok (.method ty o b a c (some lm)) ∈ records bs := by
-  sorry
+  unfold hasLineInfo
+  exact any_lineMethod_iff _
 
 /-- class and method counts are the numbers of class and method records -/
 theorem C19_counts (bs : Bytes) :
     (summary bs).classCount = (records bs).countP Item.isClass ∧
     (summary bs).methodCount = (records bs).countP Item.isMethod := by
-  sorry
+  unfold summary
+  rw [foldl_classCount, foldl_methodCount]
+  simp
 
 /-- compiler, compiler_version and min_api are the values of the *last* corresponding
     headers; a later header without value, or with a value that is not a `u32`, resets it -/
@@ -31,7 +40,13 @@ theorem C19_last_header (bs : Bytes) :
     (summary bs).compiler = (lastHeader litCompiler (records bs)).join ∧
     (summary bs).compilerVersion = (lastHeader litCompilerVersion (records bs)).join ∧
     (summary bs).minApi = ((lastHeader litMinApi (records bs)).join).bind (parseUnsignedStr u32Bound) := by
-  sorry
+  unfold summary
+  simp only [lastHeader_eq_lastHdr]
+  rw [foldl_compiler, foldl_compilerVersion, foldl_minApi]
+  refine ⟨?_, ?_, ?_⟩
+  · cases lastHdr litCompiler (records bs) <;> rfl
+  · cases lastHdr litCompilerVersion (records bs) <;> rfl
+  · cases lastHdr litMinApi (records bs) <;> rfl
 
 /-- 'is valid' is true exactly when, among the first 50 items of the stream, a class record
     is followed (not necessarily directly) by a field or method record -/
@@ -39,6 +54,7 @@ theorem C19_valid (bs : Bytes) :
     isValid bs = true ↔
       ∃ i j ci mj, i < j ∧ j < 50 ∧ (records bs)[i]? = some ci ∧ ci.isClass = true ∧
         (records bs)[j]? = some mj ∧ mj.isMember = true := by
-  sorry
+  unfold isValid
+  exact isValidGo_take_iff _ 50
 
 end PG
